@@ -11,11 +11,11 @@ import (
 )
 
 var noopPkgs = map[string]bool{
-	frpPrefix + "/pkg/util/xlog":       true,
-	frpPrefix + "/pkg/util/log":        true,
-	"github.com/fatedier/golib/log":    true,
-	frpPrefix + "/server/metrics":      false,
-	frpPrefix + "/pkg/metrics/mem":     false,
+	frpPrefix + "/pkg/util/xlog":          true,
+	frpPrefix + "/pkg/util/log":           true,
+	"github.com/fatedier/golib/log":       true,
+	frpPrefix + "/server/metrics":         false,
+	frpPrefix + "/pkg/metrics/mem":        false,
 	frpPrefix + "/pkg/metrics/prometheus": false,
 }
 
@@ -54,39 +54,51 @@ var modelTable map[string]modelFn
 
 func init() {
 	modelTable = map[string]modelFn{
-		"(*sync.Mutex).Lock":      func(x *Run, fr *Frame, st *State, fn *ssa.Function, a []Val, s ssa.Instruction) []Outcome { return x.lockOp(fr, st, a[0], 1, s) },
-		"(*sync.Mutex).Unlock":    func(x *Run, fr *Frame, st *State, fn *ssa.Function, a []Val, s ssa.Instruction) []Outcome { return x.unlockOp(fr, st, a[0], 1, s) },
-		"(*sync.RWMutex).Lock":    func(x *Run, fr *Frame, st *State, fn *ssa.Function, a []Val, s ssa.Instruction) []Outcome { return x.lockOp(fr, st, a[0], 1, s) },
-		"(*sync.RWMutex).Unlock":  func(x *Run, fr *Frame, st *State, fn *ssa.Function, a []Val, s ssa.Instruction) []Outcome { return x.unlockOp(fr, st, a[0], 1, s) },
-		"(*sync.RWMutex).RLock":   func(x *Run, fr *Frame, st *State, fn *ssa.Function, a []Val, s ssa.Instruction) []Outcome { return x.lockOp(fr, st, a[0], 2, s) },
-		"(*sync.RWMutex).RUnlock": func(x *Run, fr *Frame, st *State, fn *ssa.Function, a []Val, s ssa.Instruction) []Outcome { return x.unlockOp(fr, st, a[0], 2, s) },
-		"(*sync.Once).Do":         modelOnceDo,
-		"(*sync.WaitGroup).Add":   modelNoop,
-		"(*sync.WaitGroup).Done":  modelNoop,
-		"(*sync.WaitGroup).Wait":  modelNoop,
-		"strconv.Itoa":            modelUF("itoa"),
-		"strings.ToLower":         modelToLower,
-		
-		"strings.HasSuffix":       modelUF("hassuffix"),
-		"strings.Contains":        modelUF("contains"),
-		"strings.TrimSpace":       modelUF("trimspace"),
-		"strings.TrimSuffix":      modelUF("trimsuffix"),
-		"strings.TrimPrefix":      modelUF("trimprefix"),
-		"strings.EqualFold":       modelUF("equalfold"),
-		"net.JoinHostPort":        modelUF("joinhostport"),
-		"errors.New":              modelNewError,
-		"fmt.Errorf":              modelNewError,
-		"fmt.Sprintf":             modelSprintf,
-		"time.Now":                modelFresh,
-		"time.Since":              modelFresh,
-		"(time.Time).Unix":        modelUF("time.unix"),
-		"(time.Duration).Seconds": modelUF("dur.seconds"),
-		"runtime/debug.Stack":     modelFresh,
-		"(*sync/atomic.Value).Store": modelAtomicValueStore,
-		"(*sync/atomic.Value).Load":  modelAtomicValueLoad,
-		frpPrefix + "/pkg/util/util.GetAuthKey":            modelUF("authkey"),
-		frpPrefix + "/pkg/util/util.ConstantTimeEqString":  modelStrEq,
-		"crypto/subtle.ConstantTimeCompare":                modelFresh,
+		"(*sync.Mutex).Lock": func(x *Run, fr *Frame, st *State, fn *ssa.Function, a []Val, s ssa.Instruction) []Outcome {
+			return x.lockOp(fr, st, a[0], 1, s)
+		},
+		"(*sync.Mutex).Unlock": func(x *Run, fr *Frame, st *State, fn *ssa.Function, a []Val, s ssa.Instruction) []Outcome {
+			return x.unlockOp(fr, st, a[0], 1, s)
+		},
+		"(*sync.RWMutex).Lock": func(x *Run, fr *Frame, st *State, fn *ssa.Function, a []Val, s ssa.Instruction) []Outcome {
+			return x.lockOp(fr, st, a[0], 1, s)
+		},
+		"(*sync.RWMutex).Unlock": func(x *Run, fr *Frame, st *State, fn *ssa.Function, a []Val, s ssa.Instruction) []Outcome {
+			return x.unlockOp(fr, st, a[0], 1, s)
+		},
+		"(*sync.RWMutex).RLock": func(x *Run, fr *Frame, st *State, fn *ssa.Function, a []Val, s ssa.Instruction) []Outcome {
+			return x.lockOp(fr, st, a[0], 2, s)
+		},
+		"(*sync.RWMutex).RUnlock": func(x *Run, fr *Frame, st *State, fn *ssa.Function, a []Val, s ssa.Instruction) []Outcome {
+			return x.unlockOp(fr, st, a[0], 2, s)
+		},
+		"(*sync.Once).Do":        modelOnceDo,
+		"(*sync.WaitGroup).Add":  modelNoop,
+		"(*sync.WaitGroup).Done": modelNoop,
+		"(*sync.WaitGroup).Wait": modelNoop,
+		"strconv.Itoa":           modelUF("itoa"),
+		"strings.ToLower":        modelToLower,
+
+		"strings.HasSuffix":                     modelUF("hassuffix"),
+		"strings.Contains":                      modelUF("contains"),
+		"strings.TrimSpace":                     modelUF("trimspace"),
+		"strings.TrimSuffix":                    modelUF("trimsuffix"),
+		"strings.TrimPrefix":                    modelUF("trimprefix"),
+		"strings.EqualFold":                     modelUF("equalfold"),
+		"net.JoinHostPort":                      modelUF("joinhostport"),
+		"errors.New":                            modelNewError,
+		"fmt.Errorf":                            modelNewError,
+		"fmt.Sprintf":                           modelSprintf,
+		"time.Now":                              modelFresh,
+		"time.Since":                            modelFresh,
+		"(time.Time).Unix":                      modelUF("time.unix"),
+		"(time.Duration).Seconds":               modelUF("dur.seconds"),
+		"runtime/debug.Stack":                   modelFresh,
+		"(*sync/atomic.Value).Store":            modelAtomicValueStore,
+		"(*sync/atomic.Value).Load":             modelAtomicValueLoad,
+		frpPrefix + "/pkg/util/util.GetAuthKey": modelUF("authkey"),
+		frpPrefix + "/pkg/util/util.ConstantTimeEqString": modelStrEq,
+		"crypto/subtle.ConstantTimeCompare":               modelFresh,
 	}
 }
 
